@@ -88,7 +88,8 @@ def _check_state(ctx, e, rnd, all_allowed):
     return None
 
 
-def _walk(rnd, npl, nsamp, k):
+def _walk(rnd, npl, nsamp, k, flow=None):
+    flow = flow or rnd.choice(["prospective", "retrospective"])
     so = [rnd.randrange(nsamp) for _ in range(npl)]
     # relabel samples so that ids are dense in order of first... names are s%02d of the value: ids = rank of value
     vals = sorted(set(so))
@@ -112,7 +113,13 @@ def _walk(rnd, npl, nsamp, k):
             break
         steps.append({"ev": "select", "allowed": allowed, "chosen": int(r.plate_id), "rank": rank})
         batch.append(int(r.plate_id))
-    return {"kind": "walk", "k": k, "sampleOf": so, "observed": ob, "steps": steps, "plate_samples": [], "raised": False}
+        if flow == "retrospective":
+            # the simulation reveals the selected plate before the next one is chosen
+            sel = scr.plate_ids == int(r.plate_id)
+            st2, r2 = outcome(scr.set_observed, sel, scr.observations[sel])
+            if st2 != "ok":
+                return {"raised": "set_observed: " + r2, "k": k, "sampleOf": so, "observed": ob, "batch": batch}
+    return {"kind": "walk", "k": k, "sampleOf": so, "observed": ob, "steps": steps, "plate_samples": [], "raised": False, "flow": flow}
 
 
 def _multi(rnd):
@@ -125,7 +132,7 @@ def _multi(rnd):
     rem = sorted(scr.plates, key=lambda p: p.plate_id)
     st, r = outcome(KPerSamplePlatePolicy(2).filter_eligible_plates, [], rem, np.random.default_rng(0))
     raised = st != "ok" and r.startswith("ValueError")
-    return {"kind": "multi", "k": 2, "sampleOf": [0], "observed": [False], "steps": [],
+    return {"kind": "multi", "k": 2, "sampleOf": [0], "observed": [False], "steps": [], "flow": "prospective",
             "plate_samples": [sorted(set(int(x) for x in p.sample_ids)) for p in rem], "raised": raised,
             "other_error": (st != "ok" and not raised)}
 
